@@ -2,6 +2,7 @@ package checks
 
 import (
 	"context"
+	"os"
 	"crypto/sha256"
 	"encoding/hex"
 	"fmt"
@@ -82,6 +83,10 @@ type c04Scenario struct {
 	// C07 varies; nil = 0,1,2. Positions that contribute no randomness by design
 	// (a next-only holder in a redistribution) are left out.
 	c07Pos []string
+	// jointUniform: the joint value is a uniformly random byte string (a sample, a
+	// session identifier): C07 then demands that every 8-byte window of it changes
+	// when one party's stream changes.
+	jointUniform bool
 }
 
 func canonOf[T any]() func([]byte) ([]byte, error) {
@@ -126,7 +131,7 @@ func newC04Run(rc *harness.RunCtx, adv *adversary) *protoRun {
 // ---- scenario: session setup ----
 
 func scenarioSession() *c04Scenario {
-	s := &c04Scenario{name: "session", only: []string{"sess/"}}
+	s := &c04Scenario{name: "session", only: []string{"sess/"}, jointUniform: true}
 	s.canon = map[string]func([]byte) ([]byte, error){
 		"sess/SessionSetupR1BROADCAST:": canonOf[*session.Round1Broadcast](),
 		"sess/SessionSetupR2BROADCAST:": canonOf[*session.Round2Broadcast](),
@@ -531,7 +536,7 @@ func c04Cells(t *testing.T, sc *c04Scenario, seed sim.Seed, withAlts bool) ([]ma
 		if _, skip := sc.skipCorrupt[c]; skip {
 			continue
 		}
-		for _, ce := range enumerateCells(log, c, "A", sc.only, sc.maxLeaves) {
+		for _, ce := range enumerateCells(log, c, "A", sc.only, sc.maxLeaves, sc.costlyRun) {
 			p := ce.t.params()
 			p["scenario"] = sc.name
 			p["corrupt"] = fmt.Sprint(c)
@@ -846,6 +851,9 @@ func c04Workload(name string, quickCells int) harness.Workload {
 			for _, c := range cells {
 				c["verif_seed"] = fmt.Sprint(seedInt)
 			}
+			if os.Getenv("VERIF_DEBUG") != "" {
+				fmt.Printf("DEBUG %s: %d cells enumerated\n", name, len(cells))
+			}
 			if tier != "thorough" && len(cells) > quickCells {
 				// stratified: the semantic own-other-coins / own-other-input cells always, plus an
 				// evenly spread subset of the (sorted) list of byte-level cells
@@ -876,15 +884,16 @@ func C04Workloads() []harness.Workload {
 		c04Workload("lindell22-bip340", 40),
 		c04Workload("dkls23-bbot", 12),
 		c04Workload("dkls23-softspoken", 12),
-		c04Workload("aor", 24),
-		c04Workload("redistribute", 40),
-		c04Workload("redistribute-anchored", 24),
-		c04Workload("lindell17-sign", 16),
-		c04Workload("lindell17-sign-swapped", 8),
-		c04Workload("lindell17-dkg", 4),
+		c04Workload("aor", 1000),
+		c04Workload("redistribute", 1000),
+		c04Workload("redistribute-anchored", 1000),
+		c04Workload("redistribute-disjoint", 1000),
+		c04Workload("lindell17-sign", 1000),
+		c04Workload("lindell17-sign-swapped", 40),
+		c04Workload("lindell17-dkg", 16),
 		c04Workload("lindell17-dkg3", 0),
-		c04Workload("boldyreva-short-pop", 12),
-		c04Workload("boldyreva-long-aug", 8),
+		c04Workload("boldyreva-short-pop", 1000),
+		c04Workload("boldyreva-long-aug", 1000),
 	}
 }
 
